@@ -998,7 +998,14 @@ func (ef *effects) checkMapRange(r *Run, fn *ssa.Function, rng *ssa.Range, key f
 // checkNilOpts: every dereference of the receiver of (*CompileOptions).Compile is dominated by `opts != nil`.
 func (ef *effects) checkNilOpts(r *Run) {
 	for _, fn := range ef.fns {
-		if fn.Name() != "Compile" || fn.Signature.Recv() == nil || fnPkgPath(fn) != PathPQL {
+		// every method of the options type (Compile, and helpers that were split off it): a nil receiver is legal
+		if fn.Signature.Recv() == nil || fnPkgPath(fn) != PathPQL || len(fn.Params) == 0 || len(fn.Blocks) == 0 {
+			continue
+		}
+		if rt := strings.TrimPrefix(TypeStr(fn.Signature.Recv().Type()), "*"); rt != "pql.CompileOptions" {
+			continue
+		}
+		if _, isPtr := fn.Signature.Recv().Type().(*types.Pointer); !isPtr {
 			continue
 		}
 		recv := fn.Params[0]
@@ -1046,7 +1053,7 @@ func (ef *effects) checkNilOpts(r *Run) {
 						guarded = true
 					}
 				}
-				r.Check(guarded, "C14/nil-opts", fmt.Sprintf("pql.(*CompileOptions).Compile dereference of the receiver #%d", n), ef.p.Pos(ins.Pos()), "dominated by `opts != nil`", "the options receiver is dereferenced on a path where it may be nil: Compile(source) (nil options) would panic instead of behaving like the zero value")
+				r.Check(guarded, "C14/nil-opts", fmt.Sprintf("pql.(*CompileOptions).%s dereference of the receiver #%d", fn.Name(), n), ef.p.Pos(ins.Pos()), "dominated by `opts != nil`", "the options receiver is dereferenced on a path where it may be nil: Compile(source) (nil options) would panic instead of behaving like the zero value")
 			}
 		}
 		// the package-level Compile passes a nil receiver
